@@ -755,3 +755,13 @@ Proof.
     repeat (apply andb_true_iff in D2' as [? D2']).
     rewrite H, H0, H1, H2, H3, H4, H5, H6. reflexivity.
 Qed.
+
+Lemma time_literals_accepted t : wf_time t = true ->
+  parse_time (render_time t) = Ok (denote_time t) /\ valid_time (denote_time t) /\ time_offset (denote_time t) = timeline t.
+Proof. intros W. split; [apply parse_render_time; exact W|]. split; [apply denote_time_valid; exact W|apply timeline_offset; exact W]. Qed.
+
+Lemma date_literals d :
+  (wf_date d = true -> parse_date (render_date d) = Ok (denote_date d)) /\
+  (0 <= sd_year d <= 9999 -> 0 <= sd_month d <= 99 -> 0 <= sd_day d <= 99 -> wf_date d = false ->
+   parse_date (render_date d) = Err EUnrepresentableDate).
+Proof. split; [apply parse_render_date|apply parse_render_date_invalid]. Qed.
